@@ -147,6 +147,16 @@ func (ss *snapState) op(c *girc.Client, which string, res *SessResult) {
 	case "keep": // (b) take snapshots now …
 		ss.kept = takeSnaps(c)
 		ss.keptRender = ss.kept.render()
+	case "scribblekept": // (c) writing through snapshots taken EARLIER, after the tracked state has moved on, changes nothing either
+		if ss.kept != nil {
+			before := girc.VerifDumpState(c)
+			ss.kept.scribble()
+			after := girc.VerifDumpState(c)
+			if !reflect.DeepEqual(before, after) {
+				res.Snap = append(res.Snap, "mutating snapshots taken earlier changed the tracked state: "+firstDiff(before, after))
+			}
+			ss.kept = nil
+		}
 	case "compare": // … and after further server events they must be unchanged
 		if ss.kept != nil {
 			now := ss.kept.render()
@@ -223,7 +233,7 @@ func runC13(c *Ctx) {
 				steps = append(steps, "Scompare")
 			}
 		}
-		steps = append(steps, "Scompare", "Smutate", "D")
+		steps = append(steps, "Scompare", "Sscribblekept", "Smutate", "D")
 		stepsToIn(in, steps)
 		c.run("session", in)
 		r.Count(strings.Join(steps, "\n"), true, "snapshot-session")
